@@ -64,6 +64,7 @@ def tryFromUsize (spec : KeySpec) (i : Nat) : Out (Option Nat) :=
       let c : Option Bool := match spec.guardCmp with
         | .lt => some (decide (l < r))
         | .le => some (decide (l ≤ r))
+        | .ne => some (decide (l ≠ r))
         | .other => none
       match c with
       | none => .fault .unreachable
